@@ -1,5 +1,5 @@
 (* C02 - session lockstep: each call returns exactly the replies to its own commands. *)
-From LibFtp Require Import Bytes Decimal Reply Endpoint DataConn Client Client_Proofs.
+From LibFtp Require Import Bytes Decimal Reply Endpoint DataConn Client Client_Proofs Ascii DataConn_Proofs Login_Proofs Transfer_Proofs.
 Local Open Scope N_scope.
 
 (* The unit of lockstep: from a state in which nothing is unread or pending, "send one command, receive its reply"
@@ -54,8 +54,68 @@ Theorem C02_greeting_120_then_220 : forall h p login,
 Proof. intros. eexists. split; [reflexivity|]. eexists. eexists. reflexivity. Qed.
 Print Assumptions C02_greeting_120_then_220.
 
-(* PARTIAL / recorded findings: (1) the transfer operations (preliminary + completion reply, ABOR accounting) are
-   covered by the correspondence and the lockstep oracle of bin/props/proto.py; (2) process_abort reads a second
+(* whole transfers, passive modes (EPSV and PASV), binary type, no cancellation, for every payload and its segmentation:
+   from a session in step, against a server that answers the set-up command positively, the transfer command with a
+   preliminary reply and - when the client has closed the data connection - with the completion reply: the call returns
+   exactly those three replies, in order, and the session is in step again (nothing unread, nothing held back, the
+   peer's remaining script untouched): no later call can receive a reply of this one *)
+Theorem C02_download_in_step : forall w path r1 r2 rest x1 x2 x3 ip port,
+  insync w (r1 :: r2 :: rest) -> w_data w = None ->
+  c_mode (w_cfg w) = Passive -> c_tls (w_cfg w) = false -> c_type (w_cfg w) = TBinary ->
+  has_crlf path = false ->
+  simple_reaction r1 x1 -> is_negative x1 = false -> passive_target (w_cfg w) x1 ip port ->
+  dp_reachable (r_data r1) = true ->
+  accepts_transfer r2 x2 x3 -> dp_end (r_data r2) = DEof ->
+  exists w', step w (ADownload path None None) = (OReturn (RvReplies [x1; x2; x3]), w') /\
+    insync w' rest /\ w_data w' = None /\ w_cfg w' = w_cfg w /\
+    sink_bytes (io_events (skipn (length (w_trace w)) (w_trace w'))) = concat (dp_segs (r_data r2)) /\
+    wire_events (skipn (length (w_trace w)) (w_trace w')) =
+      [WLine (setup_line (w_cfg w)); WReply x1; WLine (RETR_ ++ SP :: path); WReply x2; WReply x3] /\
+    data_events (skipn (length (w_trace w)) (w_trace w')) =
+      [DNewObj; DConnectTo ip port true; DTcpShutdown; DClose].
+Proof. exact download_passive_complete. Qed.
+Print Assumptions C02_download_in_step.
+
+Theorem C02_upload_in_step : forall w u path chunks r1 r2 rest x1 x2 x3 ip port,
+  insync w (r1 :: r2 :: rest) -> w_data w = None ->
+  c_mode (w_cfg w) = Passive -> c_tls (w_cfg w) = false -> c_type (w_cfg w) = TBinary ->
+  has_crlf path = false ->
+  simple_reaction r1 x1 -> is_negative x1 = false -> passive_target (w_cfg w) x1 ip port ->
+  dp_reachable (r_data r1) = true ->
+  accepts_transfer r2 x2 x3 ->
+  exists w', step w (AUpload u path chunks None) = (OReturn (RvReplies [x1; x2; x3]), w') /\
+    insync w' rest /\ w_data w' = None /\ w_cfg w' = w_cfg w /\
+    net_out_bytes (io_events (skipn (length (w_trace w)) (w_trace w'))) = concat chunks /\
+    wire_events (skipn (length (w_trace w)) (w_trace w')) =
+      [WLine (setup_line (w_cfg w)); WReply x1; WLine (upverb_bytes u ++ SP :: path); WReply x2; WReply x3] /\
+    data_events (skipn (length (w_trace w)) (w_trace w')) =
+      [DNewObj; DConnectTo ip port true; DTcpShutdown; DClose].
+Proof. exact upload_passive_complete. Qed.
+Print Assumptions C02_upload_in_step.
+
+Theorem C02_listing_in_step : forall w path names r1 r2 rest x1 x2 x3 ip port,
+  insync w (r1 :: r2 :: rest) -> w_data w = None ->
+  c_mode (w_cfg w) = Passive -> c_tls (w_cfg w) = false -> c_type (w_cfg w) = TBinary ->
+  arg_ok path ->
+  simple_reaction r1 x1 -> is_negative x1 = false -> passive_target (w_cfg w) x1 ip port ->
+  dp_reachable (r_data r1) = true ->
+  accepts_transfer r2 x2 x3 -> dp_end (r_data r2) = DEof ->
+  exists w', step w (AList path names) = (OReturn (RvList [x1; x2; x3] (concat (dp_segs (r_data r2)))), w') /\
+    insync w' rest /\ w_data w' = None /\ w_cfg w' = w_cfg w /\
+    wire_events (skipn (length (w_trace w)) (w_trace w')) =
+      [WLine (setup_line (w_cfg w)); WReply x1; WLine (line_of (if names then NLST_ else LIST_) path); WReply x2; WReply x3] /\
+    data_events (skipn (length (w_trace w)) (w_trace w')) =
+      [DNewObj; DConnectTo ip port true; DTcpShutdown; DClose] /\
+    obs_events (skipn (length (w_trace w)) (w_trace w')) =
+      told (w_obs w) (ORequest (setup_line (w_cfg w))) ++ told (w_obs w) (OReply x1) ++
+      told (w_obs w) (ORequest (line_of (if names then NLST_ else LIST_) path)) ++ told (w_obs w) (OReply x2) ++
+      told (w_obs w) (OFileList (concat (dp_segs (r_data r2)))) ++ told (w_obs w) (OReply x3).
+Proof. exact list_passive_complete. Qed.
+Print Assumptions C02_listing_in_step.
+
+(* PARTIAL / recorded findings: (1) transfers in the active modes, under TLS, with the completion reply written together
+   with the preliminary one, and the ABOR accounting are covered by the correspondence and the lockstep oracle of
+   bin/props/proto.py; (2) process_abort reads a second
    reply only after 426 (Client.v, process_abort): against a server that had already completed the transfer, or that
    refuses ABOR, one reply stays unread - KNOWN-FINDING abor/first-reply-not-426 (see known_findings.txt);
    (3) logout() returns a single reply: after "120, 220" to REIN both are read but only the 220 is returned. *)
